@@ -429,6 +429,27 @@ impl SeqScenario {
         let s = w.sim.borrow();
         let wins = crash::windows(&s, 0);
         let last = &hist[hist.len() - 1];
+        // the crash point right after a successful sync: nothing in flight, the file is
+        // the durable image and every block must read its synced value
+        if o.c05 && matches!(last, Op::Sync) {
+            ev.counters[2] += 1;
+            let img = s.files[0].clone();
+            let mut h = std::collections::hash_map::DefaultHasher::new();
+            img.hash(&mut h);
+            w.rd.blocks.hash(&mut h);
+            0xC05u32.hash(&mut h);
+            if self.crash_seen.lock().unwrap().insert(h.finish()) {
+                ev.counters[3] += 1;
+                if let Some((c, d)) = self.c05_check(w, &img, &w.rd.blocks, &[]) {
+                    ev.violations.push(self.viol(
+                        "C05",
+                        format!("crash-right-after-sync:{}", c),
+                        format!("crash right after {} returned: {}", last.short(), d),
+                        hist,
+                    ));
+                }
+            }
+        }
         for win in wins.iter().filter(|x| x.ops.contains(&last_idx)) {
             ev.counters[1] += 1;
             let mut bad04: Option<(String, String)> = None;
@@ -476,9 +497,40 @@ impl SeqScenario {
                 ev.counters[4] += 1;
             }
             if let Some((c, d)) = bad04 {
+                // discriminating feature for under-counted clusters: is the cluster free or
+                // allocated in RAM (cache, else volatile file) at the end of this transition?
+                let c = if c == "under" || c == "double_ref" {
+                    // Discriminating feature: was the under-counted host cluster released by a
+                    // discard of this history (its punch is in the log) with no complete
+                    // metadata flush between that discard and the operation that crashed?
+                    let cl = d.split("host cluster 0x").nth(1).and_then(|x| x.split(' ').next()).and_then(|x| u64::from_str_radix(x, 16).ok());
+                    let cb = self.img.cluster_bits;
+                    let mut freed_at: Option<usize> = None;
+                    if let Some(cl) = cl {
+                        for r in s.reqs.iter() {
+                            if r.dev != 0 || r.op_idx == 0 || r.op_idx > hist.len() {
+                                continue;
+                            }
+                            if let (Kind::Zero { len }, Op::Discard { .. }) = (&r.kind, &hist[r.op_idx - 1]) {
+                                let c0 = r.off >> cb;
+                                let c1 = (r.off + *len as u64 - 1) >> cb;
+                                if cl >= c0 && cl <= c1 {
+                                    freed_at = Some(r.op_idx);
+                                }
+                            }
+                        }
+                    }
+                    let flushed_since = freed_at.map_or(false, |f| (f..hist.len() - 1).any(|j| hist[j].is_flushing()));
+                    match freed_at {
+                        Some(_) if !flushed_since => format!("cluster-freed-by-discard-not-yet-flushed:{}", c),
+                        _ => format!("{}:last={}:window={}", c, op_kind(last), kinds_in_window.join("+")),
+                    }
+                } else {
+                    format!("{}:last={}:window={}", c, op_kind(last), kinds_in_window.join("+"))
+                };
                 ev.violations.push(self.viol(
                     "C04",
-                    format!("crash:{}:last={}:window={}", c, op_kind(last), kinds_in_window.join("+")),
+                    format!("crash:{}", c),
                     format!("crash inside {} leaves an unsafe image: {}", last.short(), d),
                     hist,
                 ));
@@ -562,8 +614,17 @@ impl SeqScenario {
                     }
                 }
                 if !ok {
+                    let discarded_since = since.iter().any(|op| match op {
+                        Op::Discard { off, len } => {
+                            let end = off.saturating_add(*len).min(w.rd.vsize);
+                            let start = (*off + cs as u64 - 1) / cs as u64 * cs as u64;
+                            let stop = end / cs as u64 * cs as u64;
+                            goff >= start && goff < stop
+                        }
+                        _ => false,
+                    });
                     return Some((
-                        format!("synced-block-lost:got-{}", classify_word(*g)),
+                        format!("synced-block-lost:got-{}{}", classify_word(*g), if discarded_since { ":block-discarded-since-sync" } else { "" }),
                         format!(
                             "synced guest block {:#x} held {} at the sync point but reads {} after the crash",
                             goff,
